@@ -179,8 +179,8 @@ def check_C05(ctx, rep):
                             'no cross-call memo feeds the matcher or the simplifier (R-STATE c); operands untouched (R-EFFECT)']
     rep.not_decided += ['that the recursive matcher equals the denotation beyond those facts']
     P = ctx.prog.func
-    if ka_rules.check_simplify(ctx, rep, P('regexp_algorithms.regexp_simplify')) < 12:
-        raise AnalysisError('fewer than 12 rewrite paths extracted from regexp_simplify')
+    if ka_rules.check_simplify(ctx, rep, P('regexp_algorithms.regexp_simplify')) < 40:
+        raise AnalysisError('fewer than 40 class cases evaluated for regexp_simplify')
     ka_rules.check_simplify_spec(ctx, rep, P('regexp_algorithms.regexp_simplify'))
     ka_rules.check_matcher(ctx, rep, P('regexp_algorithms.regexp_accepts_word'))
     if visitor.check_visitors(ctx, rep) < 14:
@@ -217,7 +217,7 @@ def check_C06(ctx, rep):
     dispatch.check_generator_mapping(ctx, rep, ctx.prog.func('regexp_algorithms.RegexpToNFAGenerator.generate'))
     ka_rules.check_rip_step(ctx, rep, ctx.prog.func('regexp_algorithms.gnfa_minimize'))
     ka_rules.check_gnfa_edges(ctx, rep, ctx.prog.func('regexp_algorithms.dfa_to_gnfa'))
-    if ka_rules.check_simplify(ctx, rep, ctx.prog.func('regexp_algorithms.regexp_simplify')) < 12:
+    if ka_rules.check_simplify(ctx, rep, ctx.prog.func('regexp_algorithms.regexp_simplify')) < 40:
         raise AnalysisError('fewer than 12 rewrite paths extracted from regexp_simplify')
     state.check_hidden_state(ctx, rep, modules=['regexp_algorithms', 'nfa_algorithms'])
     for f, st in dispatch.regexp_recursions(ctx):
@@ -253,14 +253,7 @@ def check_chomsky_recogniser(ctx, rep):
     import ast as _ast
     from .astutil import u as _u
     cyk.check_alternative_recogniser(ctx, rep)
-    g = ctx.prog.func('cfg.CFG.is_chomsky')
-    txt = ' '.join(_u(r.value) for r in _ast.walk(g.node) if isinstance(r, _ast.Return))
-    for what, atom in {'start variable not on a right-hand side': 'self.S not in rule.variables()', 'epsilon only for the start variable': 'not rule.is_epsilon() or rule.variable == self.S',
-                       'every rule has a CNF shape': 'rule.is_chomsky()'}.items():
-        if atom in txt:
-            rep.holds('R-CNF.shape', g, what, '"{}" is part of the grammar-level CNF test'.format(what), nontrivial=False)
-        else:
-            rep.violates('R-CNF.shape', g, what, 'the grammar-level CNF test no longer requires "{}" ({})'.format(what, atom))
+    cyk.check_grammar_recogniser(ctx, rep)
 
 
 def check_C08(ctx, rep):
